@@ -3,10 +3,11 @@ decide which listed property (DESIGN 6)."""
 import json, os
 
 VERIF = os.path.dirname(os.path.dirname(os.path.abspath(__file__)))
-MC_WORKERS = 12
+# parallelism: all 16 cores by default; VERIF_JOBS throttles a run that shares the machine with others
+JOBS = int(os.environ.get("VERIF_JOBS", "12"))
+MC_WORKERS = JOBS
 MC_TIMEOUT = {"quick": 900, "thorough": 3400}
 SHARD = 25
-JOBS = 12
 
 
 def active_dev():
